@@ -35,6 +35,67 @@ type wireCase struct {
 
 type marshaler interface{ Marshal() ([]byte, error) }
 
+// sameExported compares two values of one type through their exported fields only, recursively:
+// unexported members of a library structure are its internal state, not field values, and a nil
+// and an empty slice are the same (empty) value.
+func sameExported(a, b reflect.Value) bool {
+	if a.Type() != b.Type() {
+		return false
+	}
+	switch a.Kind() {
+	case reflect.Struct:
+		for i := 0; i < a.NumField(); i++ {
+			if a.Type().Field(i).IsExported() && !sameExported(a.Field(i), b.Field(i)) {
+				return false
+			}
+		}
+		return true
+	case reflect.Slice, reflect.Array:
+		if a.Len() != b.Len() {
+			return false
+		}
+		for i := 0; i < a.Len(); i++ {
+			if !sameExported(a.Index(i), b.Index(i)) {
+				return false
+			}
+		}
+		return true
+	case reflect.Ptr, reflect.Interface:
+		if a.IsNil() || b.IsNil() {
+			return a.IsNil() == b.IsNil()
+		}
+		return sameExported(a.Elem(), b.Elem())
+	case reflect.Map:
+		if a.Len() != b.Len() {
+			return false
+		}
+		for _, k := range a.MapKeys() {
+			if bv := b.MapIndex(k); !bv.IsValid() || !sameExported(a.MapIndex(k), bv) {
+				return false
+			}
+		}
+		return true
+	case reflect.Bool:
+		return a.Bool() == b.Bool()
+	case reflect.Int, reflect.Int8, reflect.Int16, reflect.Int32, reflect.Int64:
+		return a.Int() == b.Int()
+	case reflect.Uint, reflect.Uint8, reflect.Uint16, reflect.Uint32, reflect.Uint64, reflect.Uintptr:
+		return a.Uint() == b.Uint()
+	case reflect.Float32, reflect.Float64:
+		return a.Float() == b.Float()
+	case reflect.Complex64, reflect.Complex128:
+		return a.Complex() == b.Complex()
+	case reflect.String:
+		return a.String() == b.String()
+	}
+	return false // functions, channels: no such field values in the wire types
+}
+
+// sameFields: sameExported for two values or pointers to values.
+func sameFields(a, b interface{}) bool {
+	return sameExported(reflect.Indirect(reflect.ValueOf(a)), reflect.Indirect(reflect.ValueOf(b)))
+}
+
 // build returns the value, a fresh zero value to decode into, a decode function and a comparer.
 func build(c wireCase) (enc marshaler, decode func([]byte) (int, error), same func() string, reenc func() ([]byte, error), err error) {
 	n := func(i int) uint64 {
@@ -71,7 +132,7 @@ func build(c wireCase) (enc marshaler, decode func([]byte) (int, error), same fu
 		v := types.NewSMB_DATEFromDate(int(n(0)), int(n(1)), int(n(2)))
 		d := types.NewSMB_DATE()
 		return v, d.Unmarshal, func() string {
-			if *d != *v {
+			if !sameFields(d, v) {
 				return fmt.Sprintf("got %+v want %+v", *d, *v)
 			}
 			return ""
@@ -80,7 +141,7 @@ func build(c wireCase) (enc marshaler, decode func([]byte) (int, error), same fu
 		v := &types.FILETIME{DwLowDateTime: uint32(n(0)), DwHighDateTime: uint32(n(1))}
 		d := &types.FILETIME{}
 		return v, d.Unmarshal, func() string {
-			if *d != *v {
+			if !sameFields(d, v) {
 				return fmt.Sprintf("got %+v want %+v", *d, *v)
 			}
 			return ""
@@ -89,7 +150,7 @@ func build(c wireCase) (enc marshaler, decode func([]byte) (int, error), same fu
 		v := &types.LOCKING_ANDX_RANGE32{PID: uint16(n(0)), ByteOffset: uint32(n(1)), LengthInBytes: uint32(n(2))}
 		d := &types.LOCKING_ANDX_RANGE32{}
 		return v, d.Unmarshal, func() string {
-			if *d != *v {
+			if !sameFields(d, v) {
 				return fmt.Sprintf("got %+v want %+v", *d, *v)
 			}
 			return ""
@@ -98,7 +159,7 @@ func build(c wireCase) (enc marshaler, decode func([]byte) (int, error), same fu
 		v := &types.LOCKING_ANDX_RANGE64{PID: uint16(n(0)), Pad: uint16(n(1)), ByteOffsetHigh: uint32(n(2)), ByteOffsetLow: uint32(n(3)), LengthInBytesHigh: uint32(n(4)), LengthInBytesLow: uint32(n(5))}
 		d := &types.LOCKING_ANDX_RANGE64{}
 		return v, d.Unmarshal, func() string {
-			if *d != *v {
+			if !sameFields(d, v) {
 				return fmt.Sprintf("got %+v want %+v", *d, *v)
 			}
 			return ""
@@ -107,7 +168,7 @@ func build(c wireCase) (enc marshaler, decode func([]byte) (int, error), same fu
 		v := &types.SMB_NMPIPE_STATUS{ICount: uint8(n(0)), Flags: uint8(n(1))}
 		d := &types.SMB_NMPIPE_STATUS{}
 		return v, d.Unmarshal, func() string {
-			if *d != *v {
+			if !sameFields(d, v) {
 				return fmt.Sprintf("got %+v want %+v", *d, *v)
 			}
 			return ""
@@ -154,7 +215,7 @@ func build(c wireCase) (enc marshaler, decode func([]byte) (int, error), same fu
 			if d.ResumeKey.Reserved != v.ResumeKey.Reserved || d.ResumeKey.ServerState != v.ResumeKey.ServerState || d.ResumeKey.ClientState != v.ResumeKey.ClientState {
 				return "resume key differs"
 			}
-			if d.FileAttributes != v.FileAttributes || d.LastWriteTime != v.LastWriteTime || d.LastWriteDate != v.LastWriteDate || d.FileSize != v.FileSize {
+			if d.FileAttributes != v.FileAttributes || !sameFields(d.LastWriteTime, v.LastWriteTime) || !sameFields(d.LastWriteDate, v.LastWriteDate) || d.FileSize != v.FileSize {
 				return fmt.Sprintf("fixed fields differ: got %+v", *d)
 			}
 			if string(bytes.TrimRight([]byte(d.FileName.GetString()), " ")) != trimmed {
@@ -166,7 +227,7 @@ func build(c wireCase) (enc marshaler, decode func([]byte) (int, error), same fu
 		v := &types.SMB_FILE_ATTRIBUTES{Attributes: uint16(n(0))}
 		d := &types.SMB_FILE_ATTRIBUTES{}
 		return v, d.Unmarshal, func() string {
-			if *d != *v {
+			if !sameFields(d, v) {
 				return fmt.Sprintf("got %+v want %+v", *d, *v)
 			}
 			return ""
@@ -175,7 +236,7 @@ func build(c wireCase) (enc marshaler, decode func([]byte) (int, error), same fu
 		v := &andx.AndX{AndXCommand: codes.CommandCode(n(0)), AndXReserved: uint8(n(1)), AndXOffset: uint16(n(2))}
 		d := andx.NewAndX()
 		return v, d.Unmarshal, func() string {
-			if *d != *v {
+			if !sameFields(d, v) {
 				return fmt.Sprintf("got %+v want %+v", *d, *v)
 			}
 			return ""
@@ -188,7 +249,7 @@ func build(c wireCase) (enc marshaler, decode func([]byte) (int, error), same fu
 		v.WordCount = uint8(len(v.Words))
 		d := parameters.NewParameters()
 		return v, d.Unmarshal, func() string {
-			if d.WordCount != v.WordCount || !reflect.DeepEqual(d.Words, v.Words) {
+			if d.WordCount != v.WordCount || !sameFields(d.Words, v.Words) {
 				return fmt.Sprintf("got %d words want %d", len(d.Words), len(v.Words))
 			}
 			return ""
@@ -207,7 +268,7 @@ func build(c wireCase) (enc marshaler, decode func([]byte) (int, error), same fu
 		v := version.Version{ProductMajorVersion: uint8(n(0)), ProductMinorVersion: uint8(n(1)), ProductBuild: uint16(n(2)), Reserved: [3]byte{uint8(n(3)), uint8(n(3) >> 8), uint8(n(3) >> 16)}, NTLMRevision: uint8(n(4))}
 		d := &version.Version{}
 		return v, d.Unmarshal, func() string {
-			if *d != v {
+			if !sameFields(d, v) {
 				return fmt.Sprintf("got %+v want %+v", *d, v)
 			}
 			return ""
